@@ -374,13 +374,13 @@ func (s *Sim) Spawn(name string, fn func()) *Task {
 	raceGo(func() {
 		<-t.wake
 		defer func() {
-			if !t.killed {
-				if r := recover(); r != nil {
-					t.Panic = r
-					buf := make([]byte, 4096)
-					n := runtime.Stack(buf, false)
-					t.PanicSite = string(buf[:n])
-				}
+			// a task that is being torn down runs its deferred calls too, and those may panic (a deferred release that
+			// logs through a broken sink): that panic ends with the task instead of with the process
+			if r := recover(); r != nil && !t.killed {
+				t.Panic = r
+				buf := make([]byte, 4096)
+				n := runtime.Stack(buf, false)
+				t.PanicSite = string(buf[:n])
 			}
 			t.state = stDone
 			sendEvent(s, event{t, evDone})
